@@ -91,6 +91,9 @@ class Project(object):
     def check_changes(self):
         # type: () -> t.Iterator[None]
         self._context_cache.clear()
+        # (what was analysed for one request only - the modules of an import
+        # cycle - is told apart by this number)
+        self._request = self.__dict__.get('_request', 0) + 1
         # which directories are packages may have changed as well
         self._norm_cache.clear()
         yield
